@@ -333,6 +333,11 @@ func (packet *PacketHandler) IsCommandComplete() bool {
 	return packet.messageType[0] == CommandCompleteType
 }
 
+// IsDescribe returns true if a packet from the client has Describe type (same type byte as DataRow of the database side).
+func (packet *PacketHandler) IsDescribe() bool {
+	return packet.messageType[0] == DescribeMessageType
+}
+
 // IsExecute return true if packet has Execute type from the db driver
 func (packet *PacketHandler) IsExecute() bool {
 	return packet.messageType[0] == ExecuteMessageType
@@ -389,6 +394,16 @@ func (packet *PacketHandler) GetExecuteData() (*ExecutePacket, error) {
 		return nil, err
 	}
 	return execute, nil
+}
+
+// GetDescribeData returns parsed Describe packet data.
+// Use this only if IsDescribe() is true.
+func (packet *PacketHandler) GetDescribeData() (*pgproto3.Describe, error) {
+	describe := &pgproto3.Describe{}
+	if err := describe.Decode(packet.descriptionBufferCopy()); err != nil {
+		return nil, err
+	}
+	return describe, nil
 }
 
 // GetRowDescriptionData return parsed RowDescription packet
